@@ -1,29 +1,44 @@
 """C08 configuration for /verif/check."""
 PROP = dict(
-        module='kernel', pkg='sync', pkgname='sync', harness=['sync/c08_test.go'],
+        module='kernel', pkg='sync', pkgname='sync', harness=['sync/c08_test.go', 'sync/c08_clients_test.go'],
         # VERIF_N = number of seeded single-goroutine traces; the stress rounds use a fixed amount of work
         # per round (VERIF_C08_ITERS lock operations per goroutine, x5 and 6 repetitions in the thorough tier)
         n=dict(quick=300, thorough=3000),
         env={'VERIF_C08_ITERS': '20000'},
         timeout=dict(quick=900, thorough=3000),
-        nontrivial=r'^(T \| 1|A [1-9]|AX [1-9]|AN|S |search)',
+        # the real clients of the lock (package mm/pmm) under concurrency; VERIF_N = operations per goroutine and round
+        extra_runs=[dict(module='kernel', pkg='mm/pmm', pkgname='pmm', harness=['pmm/c08client_test.go'],
+                         extra_overlay={'kernel/sync/zz_verif_c08_export.go': 'sync/c08_export.go'},
+                         test='TestVerifC08Client', n=dict(quick=60000, thorough=200000))],
+        nontrivial=r'^(T \| 1|A [1-9]|AX [1-9]|AN|S |CL |search)',
         rule='one evaluation = one line of the harness trace: a TryToAcquire/Release/Acquire call on a real Spinlock in a '
              'single goroutine (A k / AX k a: the lock is held and a yield hook releases it at its k-th call; AN: yieldFn=nil, '
              'released by a goroutine on another core), replayed through the Lean machine that executes the regenerated '
-             'assembly, or one stress round S <goroutines> <ops each> <GOMAXPROCS,0=all> <try%> <seed> on the real lock, or one '
+             'assembly, or one stress round S <goroutines> <ops each> <GOMAXPROCS,0=all> <try%> <seed> on the real lock, one round CL <goroutines> <ops each> <pool frames> <GOMAXPROCS,0=all> <seed> | <duplicates> <lost> <stuck> of the lock\'s real '
+             'clients (AllocFrame/FreeFrame incl. frees of unmanaged frames, CAS ownership table), or one '
              'breadth-first model search; distinct = by hash of the line; non-trivial = a successful try, a contended '
-             'acquire, a stress round or a search',
+             'acquire, a stress round, a client round or a search',
         trusted=['x86-TSO / real parallelism are outside the Lean model: XCHG is a full barrier and sync/atomic is sequentially '
                  'consistent (Go memory model, Intel SDM) are trusted; the stress run is the only evidence at that level',
                  'the 13-instruction ISA semantics in lean/Firefly/Model/Spin.lean (XCHGL atomic, CALL clobbers all registers)',
-                 'the Plan 9 assembly / go/ast reader in harness/sync/c08_test.go (fails on anything it does not know)'],
-        assumptions=['clients follow the lock contract: Release only while holding, no re-Acquire while holding',
+                 'the Plan 9 assembly / go/ast reader in harness/sync/c08_test.go (fails on anything it does not know)',
+                 'the client scanner harness/sync/c08_clients_test.go: syntactic (go/parser, no go/types) scan of every non-test file '
+                 'under kernel/ for sync.Spinlock declarations and lock calls; fails on embedded/pointer/container locks, locks '
+                 'passed as arguments, lock calls in closures/defer/go/switch, TryToAcquire in a client, nested clients',
+                 'lock-discipline checker and its soundness proof are C09\'s (Model/Locked.lean, Proof/Locked.lean), imported read-only'],
+        assumptions=['clients follow the lock contract (Release only while holding, no re-Acquire while holding): TIED for every client '
+                     'found under kernel/ by the regenerated skeletons + clients_disciplined; assumed only for code outside kernel/',
                      'yieldFn, when set, does not touch the lock word (the harness hook that does is modelled as another thread)',
                      'sequentially consistent interleaving of atomic steps'],
         level_text='Lean theorems about the small-step machine running the REGENERATED archAcquireSpinlock instruction list and '
                    'the regenerated TryToAcquire/Release atomic-op bodies, for every number of threads, every schedule, every '
                    'lock address, attempts value and nil/non-nil yieldFn: mutex, lock_word, acquire_returns_only_when_free, '
-                   'try_exact, release_reacquirable, handover_visible, deadlock_free (inductive invariant indexed by pc).',
+                   'try_exact, release_reacquirable, handover_visible, deadlock_free (inductive invariant indexed by pc); '
+                   'spin_refines_abstract_lock (forward simulation to the abstract lock of Model/Locked.lean) and spin_lock_substitutes '
+                   '(the lock-protected-object machine over the real lock program refines C09\'s Locked machine, so its safety theorems transfer); '
+                   'clients_disciplined (the REGENERATED lock skeleton of every function under kernel/ that uses a sync.Spinlock takes the '
+                   'lock once, releases it exactly once on every return path and never releases un-acquired — the client shape the '
+                   'composed machine accepts). Plus a multi-core stress of the lock and of its real clients.',
         level_note='Proof is about the model (sequentially consistent interleaving). Hardware memory ordering (x86-TSO, true '
                    'parallelism) is outside the model — trusted: Go memory model / XCHG is a full barrier; covered only by the '
                    'multi-core stress run (holder counter + plain protected counter). Starvation freedom is not claimed. '
